@@ -91,6 +91,15 @@ class MachO(BinFormat):
         self._is_fat = False
         self.dynamic = False
         try:
+            self.__parse(f)
+        except (MachOError, StructureError):
+            raise
+        except Exception as e:
+            # truncated or corrupted load commands / tables
+            raise MachOError("malformed Mach-O file (%s)" % repr(e))
+
+    def __parse(self, f):
+        try:
             self.header = struct_mach_header(f)
         except:
             raise MachOError("not a Mach-O header")
